@@ -38,7 +38,11 @@ one macro MM, EXITM, REPT) is model checked (ForwardIsAllowed: every forward ste
 would write; ErrCountIsFaultyExecuted; quick: every program of <= 3 lines + macro family of 6 lines, 34 k + 17 k
 states; thorough: 4 / 7 lines) and every complete behaviour is exported with the predicted outcome (AsCore_Gen), rendered,
 assembled with hooks, compared (status, error/warning totals, code file stream) and validated by AsCore_Trace like the
-golden ones (quick: ~3.4 k programs, thorough: ~100 k).
+golden ones (quick: ~3.4 k programs, thorough: ~100 k; plus the Directed programs of AsCore_MC = regression seeds).
+Finding (known_findings C12-variable-local-in-expansion, proposed_fixes/C12-variable-local-in-expansion.diff): a second
+RESTORE / LISTING / RELAXED / PADDING / CPU inside one macro or REPT expansion is rejected with "symbol double defined"
+because asmpars.c Enter*Symbol enter the updates of predefined VARIABLES (LISTON, MACEXP, MOMCPU ...) into the local
+symbol space of the expansion as constants (found by the thorough simulation: model 2 errors, asl 4).
 Verdicts: a rejected trace is re-validated with one claim switched off at the rejected event (CONSTANTS OffSet/OffAt;
 TLC decides which claim is violated); claims the manual states definitely (skipped / recorded lines are inert, label =
 program counter, code file = emitted stream, EXITM resets the IF stack, verbatim REPT/WHILE bodies) are violations,
@@ -386,7 +390,8 @@ def main(tier):
             rep.drift("corpus test %s: %s" % (names[v.fail_exec], v.detail))
         # composed validation: ONE recorded execution (all passes of one process) is validated against ALL
         # statement-level machines at once - CondAsm x AddrBook x Diag/Driver x CodeWriter (stream view) x MacroProc
-        # (projected) - plus the cross-machine claims of spec/AsCore.tla (checks/ext_ascore.py)
+        # (projected) - plus the cross-machine claims of spec/AsCore.tla (checks/ext_ascore.py); modules used there:
+        # "AsCore", "AsCore_Trace", "AsCore_MC", "AsCore_Gen"
         from checks import ext_ascore
         ext_ascore.run(rep, bld, tier)
     return rep.finish(
